@@ -987,6 +987,9 @@ func (b *c06Book) structural(r *Run, line string) (string, bool, bool) {
 	}
 	for _, comp := range fails {
 		sig := o.kind + ":" + comp + ":" + rel[comp]
+		if comp == "noop" {
+			sig = o.kind + ":noop:rejected-after-mutation"
+		}
 		r.Fail(sig, fmt.Sprintf("%s on %s: component %s deviates from the shift rule (status %s)\n#   before: %s\n#   after:  %s",
 			line, sh, comp, st, c06Trunc(preAll[i], 600), c06Trunc(postAll[i], 600)), ln, b.replayText())
 	}
